@@ -231,6 +231,7 @@ def run(ctx) -> None:
   r1_r2_service(ctx, svc, fi)
   r3_service(ctx, fi)
   r3_nsga2(ctx)
+  r3_population_columns(ctx)
   r3_xla(ctx)
   r3_naive(ctx)
   r4_best_trials(ctx)
@@ -606,6 +607,40 @@ def r5_no_difference_compare(ctx) -> None:
               construct='difference-compare', func=fi.qualname)
 
 
+def r3_population_columns(ctx) -> None:
+  """NSGA-II ranks `ys[:, :n_objectives]` and counts violations on the rest: the label columns must therefore be built
+  from the objective metrics followed by the safety metrics, both as returned by `_filter_and_split`."""
+  ci = ctx.index.need_class('vizier._src.algorithms.evolution.numpy_populations.PopulationConverter')
+  init = ci.methods['__init__']
+  split = None
+  for x in ast.walk(init.node):
+    if isinstance(x, ast.Assign) and isinstance(x.value, ast.Call) and (dotted(x.value.func) or '').endswith('_filter_and_split') \
+        and isinstance(x.targets[0], ast.Tuple) and len(x.targets[0].elts) == 2:
+      split = [unparse(t, 0) for t in x.targets[0].elts]
+  if split is None:
+    raise AnalysisError('PopulationConverter.__init__: `objective, safe = _filter_and_split(metrics)` not found')
+  comps = [c for c in ast.walk(init.node) if isinstance(c, ast.ListComp)
+           and any(isinstance(y, ast.Call) and (dotted(y.func) or '').endswith('_create_metric_converter') for y in ast.walk(c.elt))]
+  if not comps:
+    raise AnalysisError('PopulationConverter.__init__: metric converters are not built in a comprehension')
+
+  def resolve(e, depth=0):
+    # self._x = <expr> assigned once in __init__
+    if depth < 4 and (isinstance(e, ast.Attribute) or isinstance(e, ast.Name)):
+      defs = [a.value for a in ast.walk(init.node) if isinstance(a, ast.Assign) and len(a.targets) == 1 and unparse(a.targets[0], 0) == unparse(e, 0)]
+      if len(defs) == 1:
+        return resolve(defs[0], depth + 1)
+    return e
+  it = resolve(comps[0].generators[0].iter)
+  ok = isinstance(it, ast.BinOp) and isinstance(it.op, ast.Add) and [unparse(it.left, 0), unparse(it.right, 0)] == split
+  users = [m for m in ci.methods.values() for x in ast.walk(m.node) if isinstance(x, ast.Subscript) and 'num_objective' in unparse(x.slice, 0)]
+  ctx.check(ok, 'R3', 'PopulationConverter: label columns are objectives then safety metrics', comps[0],
+            f'metric converters built from `{split[0]} + {split[1]}`; {len(users)} column split(s) by the number of objectives',
+            f'the label columns are built from `{unparse(comps[0].generators[0].iter, 50)}` (resolved: `{unparse(it, 60)}`), not from the objective metrics '
+            'followed by the safety metrics, while the population is still split at the number of objectives: with a safety metric listed '
+            'before an objective the dominance rank is computed on the wrong columns', construct='population-columns', func=ci.qualname)
+
+
 def r3_nsga2(ctx) -> None:
   fi = ctx.index.need_func('vizier._src.algorithms.evolution.nsga2._pareto_rank')
   comp = None
@@ -680,6 +715,17 @@ def r3_xla(ctx) -> None:
     t3 = unparse(f3.node, 0)
     sums = [reduction(x) for x in ast.walk(f3.node)]
     row_sum = any(r is not None and r[0] == 'sum' and r[2] in (1, -1) for r in sums)
+    partials = [c for c in ast.walk(f3.node) if isinstance(c, ast.Call) and (dotted(c.func) or '').endswith('partial')
+                and c.args and dotted(c.args[0]) == '_is_dominated']
+    strict_ok = bool(partials) and all(
+        all(isinstance(k.value, ast.Constant) and k.value.value is True for k in c.keywords if k.arg == 'strict') and len(c.args) == 1
+        for c in partials)
+    rets3 = [r for r in ast.walk(f3.node) if isinstance(r, ast.Return) and r.value is not None]
+    plain = all(reduction(flow.resolve_local(f3.node, r.value)) is not None for r in rets3)
+    ctx.check(strict_ok and plain, 'R3', 'xla_pareto.pareto_rank counts strict dominance', f3.node,
+              'rank = number of points that strictly dominate (no correction term)',
+              'pareto_rank counts weak dominance (or corrects the count afterwards): every exact duplicate of a point raises its rank, so the '
+              'rank-0 points are no longer the Pareto frontier', construct='xla-rank-strict', func=f3.qualname)
     ctx.check(row_sum and '(None, 0), 0' in t3 and '(0, None)' in t3, 'R3', 'xla_pareto.pareto_rank orientation', f3.node,
               'rank = row sum of the [candidate, other] domination matrix',
               'pareto_rank no longer counts the points dominating each candidate', construct='xla-rank', func=f3.qualname)
